@@ -1,5 +1,5 @@
 import Aiortc.Lemmas.C03.Offer3
-import Aiortc.Lemmas.C03.Roles
+import Aiortc.Lemmas.C03.RoleInv3
 set_option linter.unusedSimpArgs false
 /-!
 C03, round 2 — `setRemoteDescription` (offer or answer) on a connection that satisfies the structural invariant for
@@ -86,7 +86,13 @@ structure RemoteApplied (pc pc' : Pc) (d : Desc) : Prop where
   answer : d.type = .answer → pc'.sig = .stable ∧ pc'.currentRemote = some d ∧ pc'.pendingRemote = none
   /-- after BUNDLE every section of the description sits on one transport -/
   onPrimary : ∃ p, (∀ t ∈ pc'.transceivers, (∃ m ∈ d.media, m.kind.isMedia = true ∧ t.mid = some m.mid) → t.transport = p) ∧
-    (∀ s, pc'.sctp = some s → (∃ m ∈ d.media, m.kind.isMedia = false) → s.transport = p)
+    (∀ s, pc'.sctp = some s → (∃ m ∈ d.media, m.kind.isMedia = false) → s.transport = p) ∧
+    /- it is the transport on which the first section already sat, if it was negotiated before -/
+    (∀ m0 rest, d.media = m0 :: rest →
+      (m0.kind.isMedia = true → ∀ t ∈ pc.transceivers, t.mid = some m0.mid → t.transport = p) ∧
+      (m0.kind.isMedia = false → ∀ s, pc.sctp = some s → s.transport = p)) ∧
+    /- and an answer leaves the role it dictates on it -/
+    (∀ w, d.type = .answer → (∀ m ∈ d.media, oppRole m.setup = w) → TExist pc → d.media ≠ [] → pc'.roleOf p = w)
   rolesOffer : d.type = .offer → (∀ m ∈ d.media, m.setup = .auto) → RoleSame pc.transports pc'.transports
   rolesAnswer : ∀ w, d.type = .answer → (∀ m ∈ d.media, oppRole m.setup = w) → RoleStep w pc.transports pc'.transports
 
@@ -156,7 +162,8 @@ theorem setRemote_ok {pc : Pc} {d : Desc} (hv : pc.validate d false = .ok ()) (h
     exact ⟨a1, a2, by rw [a3, f1.2.2.2.2, hslots1.2.2.2.2]⟩
   · -- everything on the primary transport
     cases hmed : d.media with
-    | nil => exact ⟨0, fun t _ hm => by obtain ⟨m, hm, _⟩ := hm; simp [hmed] at hm, fun s _ hm => by obtain ⟨m, hm, _⟩ := hm; simp [hmed] at hm⟩
+    | nil => exact ⟨0, fun t _ hm => by obtain ⟨m, hm, _⟩ := hm; simp [hmed] at hm, fun s _ hm => by obtain ⟨m, hm, _⟩ := hm; simp [hmed] at hm,
+        fun m0 rest he => (by simp at he), fun w _ _ _ hne => absurd rfl hne⟩
     | cons m0 rest =>
       have hm0 : m0 ∈ d.media := by rw [hmed]; simp
       have hsame : ∀ m1 ∈ d.media, ∀ m2 ∈ d.media, m1.mid = m2.mid → m1.kind = m2.kind := by
@@ -223,7 +230,7 @@ theorem setRemote_ok {pc : Pc} {d : Desc} (hv : pc.validate d false = .ok ()) (h
         rw [hmed] at h2
         simp only [List.map_cons, Pc.applyBundleWith, hp] at h2
         cases h2; rfl
-      refine ⟨p, ?_, ?_⟩
+      refine ⟨p, ?_, ?_, ?_, ?_⟩
       · intro t' ht' hm
         rw [e1, hpc2] at ht'
         simp only [bundleStep, List.mem_map] at ht'
@@ -252,6 +259,29 @@ theorem setRemote_ok {pc : Pc} {d : Desc} (hv : pc.validate d false = .ok ()) (h
           · exfalso; apply hin
             simp [inSlaves, hsmid]
             exact ⟨m, hrest, rfl⟩
+      · intro m0' rest' he
+        simp only [List.cons.injEq] at he
+        obtain ⟨rfl, rfl⟩ := he
+        refine ⟨?_, ?_⟩
+        · intro hk t ht htm
+          obtain ⟨t1, ht1, hm1, htr1⟩ := r.fwd t ht m0.mid htm
+          rw [← htr1]; exact hp1 hk t1 ht1 hm1
+        · intro hk s hs
+          obtain ⟨s1, hs1, htr1⟩ := r.sctpTr s hs
+          rw [← htr1]; exact hp2 hk s1 hs1
+      · intro w ht hw hT _
+        rw [ht] at h1
+        obtain ⟨_, fo, fs⟩ := fold_owner_roles hnd d.media pc pc1 0 hP
+          (fun j m hj => by rw [Nat.zero_add]; exact keys_getElem hj) hT (fun m hm => hw m (by rw [← hmed]; exact hm)) h1
+        have hr2 : RoleSame pc1.transports pc'.transports := by rw [e6]; exact applyBundle_roles h2
+        have key : pc1.roleOf p = w := by
+          cases hk : m0.kind.isMedia
+          · obtain ⟨s', hs', hrole⟩ := fs m0 hm0 hk
+            rw [← hp2 hk s' hs']; exact hrole
+          · obtain ⟨t', ht', hmid, hrole⟩ := fo m0 hm0 hk
+            rw [← hp1 hk t' ht' hmid]; exact hrole
+        rw [roleOf_eq] at key ⊢
+        rw [hr2.lookup]; exact key
   · intro ht hauto
     rw [e6]
     rw [ht] at h1
